@@ -26,7 +26,14 @@ type env struct {
 }
 
 // newEnv exports dir (created if needed) through a fresh in-process Ufs.
+// serverOffersDotu: the server of the running case offers 9P2000.u whatever dialect the case's clients ask for (a
+// worker runs one case at a time): sessions of plain-9P2000 clients against a .u-capable server.
+var serverOffersDotu bool
+
 func newEnv(ctx *core.Ctx, name string, srvDotu bool, srvMsize uint32) (*env, error) {
+	if serverOffersDotu {
+		srvDotu = true
+	}
 	root := filepath.Join(ctx.Scratch, fmt.Sprintf("%s-%d", name, ctx.Index))
 	_ = os.RemoveAll(root)
 	if err := os.MkdirAll(root, 0o755); err != nil {
